@@ -2,6 +2,7 @@ import NauyacaVerif.Srv.ConnMore
 import NauyacaVerif.Srv.SegProof
 import NauyacaVerif.Srv.PumpProof
 import NauyacaVerif.Srv.FlowProof
+import NauyacaVerif.Srv.SysProof
 import NauyacaVerif.Gen.Params
 
 /-! # C01  Exactly one well-formed Gemini response per connection -/
@@ -101,4 +102,42 @@ theorem flow_quiet (s : Flow.FSt) (e : Flow.FEv) (hp : s.paused = true ∨ s.clo
 /-- progress: when the transport resumes and does not pause again the response is completed and closed -/
 theorem flow_resume_finishes (s : Flow.FSt) (hs : s.started = true) (hl : s.lost = false) (hc : s.closed = false) (hb : s.budget = none) :
     (Flow.fstep s .resume).closed = true ∧ (Flow.fstep s .resume).unsent = [] := Flow.resume_finishes s hs hl hc hb
+
+/-! ### the composed machine (M-Sys): request side + write pump, every event list over BOTH alphabets
+
+`Sys.srun cfg dyn evs` runs reads, timer ticks, middleware / handler completions, disconnects AND the transport's
+pause / resume signals in any order.  `dyn` is the text of messages built from Python exceptions. -/
+
+/-- nothing reaches the transport before a response is decided -/
+theorem sys_silent_before_decision (cfg : Cfg) (dyn : Nat → Bytes) (evs : List Sys.SEv) (h : (Sys.srun cfg dyn evs).conn.sent = false) :
+    (Sys.srun cfg dyn evs).flow.out = [] := Sys.silent_before_decision cfg dyn evs h
+
+/-- exactly one: what was decided is one well-formed response (header, body only with 2x) … -/
+theorem sys_decided_wellformed (cfg : Cfg) (dyn : Nat → Bytes) (evs : List Sys.SEv) (hs : (Sys.srun cfg dyn evs).conn.sent = true) :
+    ∃ ws, (Sys.srun cfg dyn evs).conn.out = ws ++ [.close] ∧ WFWrites ws := Sys.decided_wellformed cfg dyn evs hs
+
+/-- … what has reached the transport is, at every moment and under any flow control, a prefix of exactly that response … -/
+theorem sys_written_prefix (cfg : Cfg) (dyn : Nat → Bytes) (evs : List Sys.SEv) :
+    Sys.written (Sys.srun cfg dyn evs) <+: Sys.bytesOf dyn (Sys.srun cfg dyn evs).conn.out := Sys.written_prefix cfg dyn evs
+
+/-- … the trace is writes followed by at most one `close`, which is last … -/
+theorem sys_trace_shape (cfg : Cfg) (dyn : Nat → Bytes) (evs : List Sys.SEv) :
+    (Sys.srun cfg dyn evs).flow.out = (Sys.srun cfg dyn evs).flow.done.map .write ++ (if (Sys.srun cfg dyn evs).flow.closed then [.close] else []) :=
+  Sys.trace_shape cfg dyn evs
+
+/-- … and the connection is closed only when the whole response has been written: never half-written -/
+theorem sys_closed_complete (cfg : Cfg) (dyn : Nat → Bytes) (evs : List Sys.SEv) (hc : (Sys.srun cfg dyn evs).flow.closed = true) :
+    Sys.written (Sys.srun cfg dyn evs) = Sys.bytesOf dyn (Sys.srun cfg dyn evs).conn.out := Sys.closed_complete cfg dyn evs hc
+
+/-- after a disconnect no event writes anything -/
+theorem sys_lost_quiet (cfg : Cfg) (dyn : Nat → Bytes) (evs : List Sys.SEv) (e : Sys.SEv) (hl : (Sys.srun cfg dyn evs).conn.lost = true) :
+    (Sys.sstep cfg dyn (Sys.srun cfg dyn evs) e).flow.out = (Sys.srun cfg dyn evs).flow.out :=
+  Sys.lost_quiet cfg dyn _ e (Sys.srun_j cfg dyn evs) hl
+
+/-- progress: when the transport resumes and does not pause again, the response that was begun is completed and closed -/
+theorem sys_resume_completes (cfg : Cfg) (dyn : Nat → Bytes) (evs : List Sys.SEv) (hs : (Sys.srun cfg dyn evs).conn.sent = true)
+    (hl : (Sys.srun cfg dyn evs).conn.lost = false) (hc : (Sys.srun cfg dyn evs).flow.closed = false) (hb : (Sys.srun cfg dyn evs).flow.budget = none) :
+    (Sys.sstep cfg dyn (Sys.srun cfg dyn evs) .resume).flow.closed = true ∧
+      Sys.written (Sys.sstep cfg dyn (Sys.srun cfg dyn evs) .resume) = Sys.bytesOf dyn (Sys.srun cfg dyn evs).conn.out :=
+  Sys.resume_completes cfg dyn _ (Sys.srun_j cfg dyn evs) hs hl hc hb
 end NauyacaVerif.C01
